@@ -6,3 +6,4 @@ pub use crate::bridge::*;
 pub use crate::core::*;
 pub mod fl;
 pub mod ball;
+pub mod vm;
